@@ -400,8 +400,21 @@ def check_above(case):
 
 def enumerate_cases(tier):
     # the ignore file sits in an ancestor of the root - and that ancestor is the root directory of the file system
-    return [{"kind": "fs-root-context", "tool": t, "root": r, "mode": m}
-            for t in ("hg", "docker") for r in ("/proj", "/proj/sub", "/") for m in ("", "dfs")]
+    cases = [{"kind": "fs-root-context", "tool": t, "root": r, "mode": m}
+             for t in ("hg", "docker") for r in ("/proj", "/proj/sub", "/") for m in ("", "dfs")]
+    # a symbolic link that leads to a directory and carries a name a directory-only pattern ignores (git: a link is no
+    # directory); a negation with a directory part after a wildcard basename pattern
+    ltree = {"real": {"t": "d", "ch": {"f.txt": {"t": "f", "c": ""}}}, "build": {"t": "l", "to": "real"}, "lnk": {"t": "l", "to": "real"},
+             "out": {"t": "d", "ch": {"x": {"t": "f", "c": ""}}}, "keep.txt": {"t": "f", "c": ""}}
+    ntree = {"a.log": {"t": "f", "c": ""}, "sub": {"t": "d", "ch": {"a.log": {"t": "f", "c": ""}, "b.log": {"t": "f", "c": ""}}}}
+    for root in ("dot", "abs"):
+        for mode in ("", "dfs"):
+            cases.append({"tree": ltree, "tool": "git", "lines": ["build/", "out/"], "root": root, "sub": None, "switch": "option", "mode": mode})
+            cases.append({"tree": ltree, "tool": "hg", "lines": ["syntax: glob", "build/", "out/"], "root": root, "sub": None, "switch": "option", "mode": mode})
+            cases.append({"tree": ltree, "tool": "docker", "lines": ["build/", "out/"], "root": root, "sub": None, "switch": "option", "mode": mode})
+            for first in ("?.log", "a*", "*.log"):
+                cases.append({"tree": ntree, "tool": "git", "lines": [first, "!sub/a.log"], "root": root, "sub": None, "switch": "option", "mode": mode})
+    return cases
 
 
 _fsroot = {"pid": None, "jail": None}
@@ -579,6 +592,38 @@ def check(case):
                             hidden = {rels[p] for p in known}
                             over = [p for p in over if p not in known and
                                     not any(rels[p].startswith(h + "/") for h in hidden)]
+                            if not over and not under:
+                                cw = cg
+                    if tool == "git" and over:
+                        # known finding K05: a directory-only pattern (`build/`) hides a symbolic link called `build` that
+                        # leads to a directory: libgit2 decides "is a directory" with stat(), git with lstat()
+                        dironly = [ln.strip("/").split("/")[-1] for ln in case["lines"] if ln.endswith("/") and not ln.startswith(("#", "!"))]
+                        known = [p for p in over if os.path.islink(os.path.join(repo, rels[p])) and os.path.isdir(os.path.join(repo, rels[p]))
+                                 and any(re.match("^" + glob_to_re(d, True) + "$", rels[p].split("/")[-1]) for d in dironly)]
+                        if known:
+                            out.add("C20/git/over-ignore/dir-pattern-hides-link-to-directory", query=q, lines=case["lines"],
+                                    wrongly_ignored=[rels[p] for p in known][:6])
+                            over = [p for p in over if p not in known]
+                            if not over and not under:
+                                cw = cg
+                    if tool == "git" and over:
+                        # known finding K06: a negation WITH a directory part (`!sub/a.log`) after a basename pattern that
+                        # does not textually wild-match it (`?.log`, `a*`): libgit2 drops the negation while parsing
+                        pats = [ln for ln in case["lines"] if ln.strip() and not ln.startswith("#")]
+                        known = []
+                        for p_ in over:
+                            rel = rels[p_]
+                            for i, ln in enumerate(pats):
+                                if ln.startswith("!") and "/" in ln[1:].strip("/") and ln[1:].strip("/") == rel and \
+                                        any("/" not in pv.strip("/") and not pv.startswith("!") and
+                                            re.match("^" + glob_to_re(pv.strip("/"), True) + "$", rel.split("/")[-1]) and
+                                            not re.match("^" + glob_to_re(pv.strip("/"), False).replace("[^/]", ".") + "$", rel) for pv in pats[:i]):
+                                    known.append(p_)
+                                    break
+                        if known:
+                            out.add("C20/git/over-ignore/path-negation-after-basename-wildcard", query=q, lines=case["lines"],
+                                    wrongly_ignored=[rels[p] for p in known][:6])
+                            over = [p for p in over if p not in known]
                             if not over and not under:
                                 cw = cg
                 if cw != cg and (over or under):
